@@ -830,6 +830,13 @@ class Interp:
             for b in o.node.body:  # nested classes
                 if isinstance(b, ast.ClassDef) and b.name == name:
                     return self.repo.classes[f"{o.qual}.{name}"]
+            if name == "__new__" and (o.real is None or getattr(o.real, "__new__", None) is object.__new__):
+                # cls.__new__(cls): a bare, uninitialised instance (no /repo __new__ in the MRO: checked by find_member above)
+                def bare(c, *a, **k):
+                    if not isinstance(c, RepoClass):
+                        raise Unsupported("__new__ of a class outside /repo")
+                    return Obj(c)
+                return NativeStub(bare, f"{o.name}.__new__")
             if o.real is not None and hasattr(o.real, name):
                 return self.repo.wrap_real(getattr(o.real, name))
             raise RaiseSignal(AttributeError(name))
@@ -861,6 +868,10 @@ class Interp:
             return None
         if name in ("items", "keys", "values", "get", "copy"):
             return getattr(dict(f), name)(*a, **k)
+        if name == "setdefault" and 1 <= len(a) <= 2 and not k and isinstance(a[0], str):
+            if a[0] not in f:
+                self.obj_setattr(dv.o, a[0], a[1] if len(a) == 2 else None, raw=True)
+            return f[a[0]]
         raise Unsupported(f"__dict__.{name}")
 
     def obj_getattr(self, o, name):
